@@ -23,6 +23,8 @@
                 non-null owner ends the scan without reclaiming) ; reclaim ARd (plain read of
                 zombie_node, free of the node), ANxF (load next), AFr (free of the record) ; AStn (own
                 next := null) ; ASto (owner := null)
+   An atomic access to a field of another thread's record (AOwn, ANx, ANxF) is in addition checked (not
+   recorded) against the construction of that record: an atomic object must be initialised before use.
    The order of every site is a parameter ([orders]); [rcu_orders] are the source's.
    Reading of seq_cst as in LRViews.v: a SeqCst load reads the newest message of its location when every
    store / RMW site of that location is SeqCst, otherwise any coherence-allowed message; RMWs (CAS, also
@@ -36,7 +38,7 @@ Inductive vpc :=
 | Idle
 | RLd (x : nat) (e : bool) | RSt (x g : nat) (e : bool) | RCas (x g : nat) (e : bool)
 | Held
-| ULd | UOwn (n c : nat) | UNx (n c : nat) | URd (n : nat) | UNxF (n : nat) | UFr (n m : nat) | USto.
+| UOwn (n c : nat) | UNx (n c : nat) | URd (n : nat) | UNxF (n : nat) | UFr (n m : nat) | USto.
 
 Record th := Th { pc : vpc; own : nat }.      (* own: S r = registered with record r, 0 = not registered *)
 
@@ -78,7 +80,10 @@ Record st := St {
   nods : nat -> ft;               (* payload of the node carried by erase record x *)
   race : bool;
   (* ghost *)
-  zl : list nat;                  (* the log: records in the order of their successful CAS, newest first *)
+  stp : nat -> nat;               (* position in the log: stamp of the record's successful CAS (0 = not pushed) *)
+  crt : nat -> nat;               (* the thread that allocated the record *)
+  pubv : nat -> vc;               (* the clock released by the record's CAS message *)
+  wm : nat;                       (* every record with a smaller stamp has been freed by a completed reclaim *)
   freed : nat -> bool
 }.
 
@@ -95,3 +100,734 @@ Definition rmw_clock (m : mo) (prev : option msg) (c : vc) : vc :=
   | Some p => match mrel p with Some r => if is_acq m then vjoin c r else c | None => c end
   | None => c
   end.
+
+Definition vpc_tag (p : vpc) : nat :=
+  match p with
+  | Idle => 0 | RLd _ _ => 1 | RSt _ _ _ => 2 | RCas _ _ _ => 3 | Held => 4 | UOwn _ _ => 6
+  | UNx _ _ => 7 | URd _ => 8 | UNxF _ => 9 | UFr _ _ => 10 | USto => 11
+  end.
+
+Section RcuViews.
+  Variable N : nat.
+  Variable o : orders.
+
+  Definition ssc_zh : bool := is_sc (o_r_cas o) && is_sc (o_e_cas o).
+  Definition ssc_nx : bool := is_sc (o_r_st o) && is_sc (o_e_st o) && is_sc (o_u_stn o).
+  Definition ssc_ow : bool := is_sc (o_u_sto o).
+  Definition oinit (s : st) (x : nat) : Z := if kind s x then 0%Z else 1%Z.
+
+  Definition init : st :=
+    St (fun _ => Th Idle 0) clk0 (fun _ => []) (fun _ _ => 0) 0 (fun _ => false) (fun _ => ft0) (fun _ => ft0)
+       false (fun _ => 0) (fun _ => 0) (fun _ => vzero) 1 (fun _ => false).
+
+  Definition load (s : st) (m : mo) (ssc : bool) (iv : Z) (l t ch : nat) : nat * vc * (nat -> nat -> nat) :=
+    let h := hs s l in let c := clk s t in
+    let i := lidx m ssc h c (seen s t l) ch in
+    (zp (read_val iv h i), read_clock m h i c, fupd (seen s) t (fupd (seen s t) l (read_stamp h i))).
+  Definition store (s : st) (m : mo) (l t v : nat) : (nat -> hist) * vc * (nat -> nat -> nat) :=
+    let h := hs s l in let c := clk s t in
+    (fupd (hs s) l (store_msg m t c (pz v) :: h), vinc c t, fupd (seen s) t (fupd (seen s t) l (S (length h)))).
+
+  (* thread t moves to control state T with clock c; histories and seen stamps as given *)
+  Definition set (s : st) (t : nat) (T : th) (c : vc) (h : nat -> hist) (sn : nat -> nat -> nat) : st :=
+    St (fupd (ths s) t T) (fupd (clk s) t c) h sn (nrec s) (kind s) (recs s) (nods s) (race s) (stp s) (crt s) (pubv s) (wm s) (freed s).
+
+  (* does thread t know (happens-after) the construction / last plain write of record x?  Checked, not
+     recorded, at the atomic accesses to the fields of another thread's record *)
+  Definition hbk (s : st) (t x : nat) : bool := fwhen (recs s x) <=? clk s t (fwho (recs s x)).
+  Definition setr (s : st) (t : nat) (T : th) (c : vc) (sn : nat -> nat -> nat) (x : nat) : st :=
+    St (fupd (ths s) t T) (fupd (clk s) t c) (hs s) sn (nrec s) (kind s) (recs s) (nods s)
+       (race s || negb (hbk s t x)) (stp s) (crt s) (pubv s) (wm s) (freed s).
+
+  Definition alloc (s : st) (t : nat) (e : bool) : st :=
+    let x := nrec s in let T := ths s t in
+    let (f, okw) := ft_write N t (clk s t) (recs s x) in
+    St (fupd (ths s) t (Th (RLd x e) (own T))) (fupd (clk s) t (vinc (clk s t) t)) (hs s) (seen s) (S x)
+       (fupd (kind s) x e) (fupd (recs s) x f) (nods s) (race s || negb okw) (stp s) (fupd (crt s) x t) (pubv s) (wm s) (freed s).
+
+  Definition step (s : st) (a : act) : st :=
+    match a with
+    | AReg t => alloc s t false
+    | AEra t => alloc s t true
+    | ALd t ch =>
+      let T := ths s t in
+      match pc T with
+      | RLd x e => let '(g, c, sn) := load s (if e then o_e_ld o else o_r_ld o) ssc_zh 0%Z L_ZH t ch in
+                   set s t (Th (RSt x g e) (own T)) c (hs s) sn
+      | _ => s end
+    | ASt t =>
+      let T := ths s t in
+      match pc T with
+      | RSt x g e => let '(h, c, sn) := store s (if e then o_e_st o else o_r_st o) (L_nx x) t g in
+                     set s t (Th (RCas x g e) (own T)) c h sn
+      | _ => s end
+    | ACas t spur =>
+      let T := ths s t in
+      match pc T with
+      | RCas x g e =>
+        let m := if e then o_e_cas o else o_r_cas o in
+        let h := hs s L_ZH in let c := clk s t in let prev := nth_error h 0 in
+        let cur := zp (read_val 0%Z h 0) in
+        let c' := rmw_clock m prev c in
+        if Nat.eqb cur g && negb spur then
+          St (fupd (ths s) t (Th Held (if e then own T else S x))) (fupd (clk s) t (vinc c' t))
+             (fupd (hs s) L_ZH (rmw_msg m t c prev (pz (S x)) :: h))
+             (fupd (seen s) t (fupd (seen s t) L_ZH (S (length h))))
+             (nrec s) (kind s) (recs s) (nods s) (race s) (fupd (stp s) x (S (length h))) (crt s)
+             (fupd (pubv s) x (match mrel (rmw_msg m t c prev (pz (S x))) with Some v => v | None => c end)) (wm s) (freed s)
+        else
+          set s t (Th (RSt x cur e) (own T)) c' (hs s) (fupd (seen s) t (fupd (seen s t) L_ZH (length h)))
+      | _ => s end
+    | ARead t x =>
+      let (f, okr) := ft_read t (clk s t) (nods s x) in
+      St (ths s) (clk s) (hs s) (seen s) (nrec s) (kind s) (recs s) (fupd (nods s) x f) (race s || negb okr)
+         (stp s) (crt s) (pubv s) (wm s) (freed s)
+    | AULd t ch =>
+      let T := ths s t in
+      let '(c0, c, sn) := load s (o_u_ld o) ssc_nx 0%Z (L_nx (pred (own T))) t ch in
+      set s t (Th (if Nat.eqb c0 0 then URd 0 else UOwn c0 c0) (own T)) c (hs s) sn
+    | AOwn t ch =>
+      let T := ths s t in
+      match pc T with
+      | UOwn n c0 => let '(v, c, sn) := load s (o_s_own o) ssc_ow (oinit s (pred n)) (L_ow (pred n)) t ch in
+                     setr s t (Th (if Nat.eqb v 0 then UNx n c0 else USto) (own T)) c sn (pred n)
+      | _ => s end
+    | ANx t ch =>
+      let T := ths s t in
+      match pc T with
+      | UNx n c0 => let '(m, c, sn) := load s (o_s_nx o) ssc_nx 0%Z (L_nx (pred n)) t ch in
+                    setr s t (Th (if Nat.eqb m 0 then URd c0 else UOwn m c0) (own T)) c sn (pred n)
+      | _ => s end
+    | ARd t =>
+      let T := ths s t in
+      match pc T with
+      | URd n =>
+        let x := pred n in
+        let (f, okr) := ft_read t (clk s t) (recs s x) in
+        let (f2, okw) := if kind s x then ft_write N t (clk s t) (nods s x) else (nods s x, true) in
+        St (fupd (ths s) t (Th (UNxF n) (own T))) (fupd (clk s) t (vinc (clk s t) t)) (hs s) (seen s) (nrec s)
+           (kind s) (fupd (recs s) x f) (fupd (nods s) x f2) (race s || negb okr || negb okw) (stp s) (crt s) (pubv s) (wm s) (freed s)
+      | _ => s end
+    | ANxF t ch =>
+      let T := ths s t in
+      match pc T with
+      | UNxF n => let '(m, c, sn) := load s (o_f_nx o) ssc_nx 0%Z (L_nx (pred n)) t ch in
+                  setr s t (Th (UFr n m) (own T)) c sn (pred n)
+      | _ => s end
+    | AFr t =>
+      let T := ths s t in
+      match pc T with
+      | UFr n m =>
+        let x := pred n in
+        let (f, okw) := ft_write N t (clk s t) (recs s x) in
+        St (fupd (ths s) t (Th (URd m) (own T))) (fupd (clk s) t (vinc (clk s t) t)) (hs s) (seen s) (nrec s)
+           (kind s) (fupd (recs s) x f) (nods s) (race s || negb okw) (stp s) (crt s) (pubv s) (wm s) (fupd (freed s) x true)
+      | _ => s end
+    | AStn t =>
+      let T := ths s t in
+      let '(h, c, sn) := store s (o_u_stn o) (L_nx (pred (own T))) t 0 in
+      St (fupd (ths s) t (Th USto (own T))) (fupd (clk s) t c) h sn (nrec s) (kind s) (recs s) (nods s) (race s)
+         (stp s) (crt s) (pubv s) (stp s (pred (own T))) (freed s)
+    | ASto t =>
+      let T := ths s t in
+      let '(h, c, sn) := store s (o_u_sto o) (L_ow (pred (own T))) t 0 in
+      set s t (Th Idle 0) c h sn
+    end.
+
+  (* the thread of an action and the control state it must be in *)
+  Definition actor (a : act) : nat :=
+    match a with
+    | AReg t | AEra t | ALd t _ | ASt t | ACas t _ | ARead t _ | AULd t _ | AOwn t _ | ANx t _ | ARd t
+    | ANxF t _ | AFr t | AStn t | ASto t => t
+    end.
+  Definition at_tag (a : act) : nat :=
+    match a with
+    | AReg _ => 0 | AEra _ => 4 | ALd _ _ => 1 | ASt _ => 2 | ACas _ _ => 3 | ARead _ _ => 4 | AULd _ _ => 4
+    | AOwn _ _ => 6 | ANx _ _ => 7 | ARd _ => 8 | ANxF _ _ => 9 | AFr _ => 10 | AStn _ => 8 | ASto _ => 11
+    end.
+  (* protocol conformance *)
+  Definition okb (s : st) (a : act) : bool :=
+    let T := ths s (actor a) in
+    (actor a <? N) && Nat.eqb (vpc_tag (pc T)) (at_tag a) &&
+    match a with
+    | ARead t x => kind s x && (0 <? stp s (pred (own T))) && (stp s (pred (own T)) <? stp s x)
+    | ARd _ => match pc T with URd n => negb (Nat.eqb n 0) | _ => false end
+    | AStn _ => match pc T with URd n => Nat.eqb n 0 | _ => false end
+    | _ => true
+    end.
+  Definition ok (s : st) (a : act) : Prop := okb s a = true.
+  Fixpoint trace_okb (s : st) (tr : list act) : bool :=
+    match tr with [] => true | a :: r => okb s a && trace_okb (step s a) r end.
+  Definition trace_ok (s : st) (tr : list act) : Prop := trace_okb s tr = true.
+  Definition run (s : st) (tr : list act) : st := fold_left step tr s.
+End RcuViews.
+
+(* ---------- refutations: weakened orders give conforming traces that end with a data race ---------- *)
+Definition reg (t : nat) : list act := [AReg t; ALd t 0; ASt t; ACas t false].
+Definition era (t : nat) : list act := [AEra t; ALd t 0; ASt t; ACas t false].
+
+(* (a) the registration CAS Relaxed: thread 1 reaches record 0 through m_zombie_head (its own CAS read the
+   message of thread 0's CAS) without acquiring its construction; the scan's first access to it races *)
+Definition o_relaxed_cas : orders :=
+  Ord Relaxed Relaxed Relaxed SeqCst SeqCst SeqCst SeqCst SeqCst SeqCst SeqCst SeqCst SeqCst.
+Definition w_two_readers : list act := reg 0 ++ reg 1 ++ [AULd 1 0; AOwn 1 0].
+Lemma rcu_relaxed_cas_refuted :
+  trace_ok 2 o_relaxed_cas init w_two_readers /\ trace_ok 2 rcu_orders init w_two_readers /\
+  race (run 2 o_relaxed_cas init w_two_readers) = true /\
+  race (run 2 rcu_orders init w_two_readers) = false.
+Proof. vm_compute. auto. Qed.
+
+(* (b) the erase CAS Relaxed: thread 1 registers after thread 0 pushed erase record 1; the release sequence
+   gives it only the clock of thread 0's registration CAS, not the construction of the erase record *)
+Definition o_relaxed_ecas : orders :=
+  Ord Relaxed Relaxed SeqCst SeqCst SeqCst Relaxed SeqCst SeqCst SeqCst SeqCst SeqCst SeqCst.
+Definition w_erase_then_reader : list act := reg 0 ++ era 0 ++ reg 1 ++ [AULd 1 0; AOwn 1 0].
+Lemma rcu_relaxed_erase_cas_refuted :
+  trace_ok 2 o_relaxed_ecas init w_erase_then_reader /\ trace_ok 2 rcu_orders init w_erase_then_reader /\
+  race (run 2 o_relaxed_ecas init w_erase_then_reader) = true /\
+  race (run 2 rcu_orders init w_erase_then_reader) = false.
+Proof. vm_compute. auto. Qed.
+
+(* (c) owner.store(nullptr) Relaxed.  Log, oldest first: record 0 (thread 2), record 1 (reader, thread 0),
+   erase record 2 (pushed by thread 2), record 3 (thread 1).  The reader reads the erased node and
+   releases while thread 2 is still registered (so its scan stops and it only stores owner := null);
+   thread 2 releases; thread 1's scan then finds every owner null and frees the node - but nothing
+   orders the reader's read before that free *)
+Definition o_relaxed_sto : orders :=
+  Ord Relaxed Relaxed SeqCst SeqCst SeqCst SeqCst SeqCst SeqCst SeqCst SeqCst SeqCst Relaxed.
+Definition w_reader_released : list act :=
+  reg 2 ++ reg 0 ++ era 2 ++ reg 1 ++ [ARead 0 2] ++ [AULd 0 0; AOwn 0 0; ASto 0] ++ [AULd 2 0; AStn 2; ASto 2] ++
+  [AULd 1 0; AOwn 1 0; ANx 1 0; AOwn 1 0; ANx 1 0; AOwn 1 0; ANx 1 0; ARd 1].
+Lemma rcu_relaxed_owner_store_refuted :
+  trace_ok 3 o_relaxed_sto init w_reader_released /\ trace_ok 3 rcu_orders init w_reader_released /\
+  race (run 3 o_relaxed_sto init w_reader_released) = true /\
+  race (run 3 rcu_orders init w_reader_released) = false.
+Proof. vm_compute. auto. Qed.
+
+(* (d) the scan's owner load Relaxed: same run; the reclaimer sees the reader's owner null without acquiring *)
+Definition o_relaxed_scan : orders :=
+  Ord Relaxed Relaxed SeqCst SeqCst SeqCst SeqCst SeqCst Relaxed SeqCst SeqCst SeqCst SeqCst.
+Lemma rcu_relaxed_scan_owner_refuted :
+  trace_ok 3 o_relaxed_scan init w_reader_released /\
+  race (run 3 o_relaxed_scan init w_reader_released) = true.
+Proof. vm_compute. auto. Qed.
+
+(* ---------- sufficiency ---------- *)
+Definition regx (p : vpc) : option (nat * bool) :=
+  match p with RLd x e | RSt x _ e | RCas x _ e => Some (x, e) | _ => None end.
+Definition inrec (p : vpc) : option nat :=
+  match p with URd n | UNxF n | UFr n _ => Some n | _ => None end.
+Definition inscan (p : vpc) : option (nat * nat * bool) :=
+  match p with UOwn n c => Some (n, c, false) | UNx n c => Some (n, c, true) | _ => None end.
+
+Section Sufficient.
+  Variable N : nat.
+  Variable o : orders.
+  (* what is needed: both CASes release and acquire, owner.store(nullptr) releases, the scan's owner load
+     acquires.  Every other site may have any order (in particular the three relaxed ones). *)
+  Hypothesis H_rcas_rel : is_rel (o_r_cas o) = true.
+  Hypothesis H_rcas_acq : is_acq (o_r_cas o) = true.
+  Hypothesis H_ecas_rel : is_rel (o_e_cas o) = true.
+  Hypothesis H_ecas_acq : is_acq (o_e_cas o) = true.
+  Hypothesis H_sto_rel : is_rel (o_u_sto o) = true.
+  Hypothesis H_own_acq : is_acq (o_s_own o) = true.
+
+  Notation step := (step N o).
+  Notation ok := (ok N).
+
+  Definition pcT (s : st) (t : nat) : vpc := pc (ths s t).
+  Definition ownT (s : st) (t : nat) : nat := own (ths s t).
+  Definition nvl (s : st) (l : nat) : nat := zp (read_val 0%Z (hs s l) 0).
+  Definition pub (s : st) (x : nat) : Prop := 0 < stp s x.
+  Definition rel (s : st) (x : nat) (v : vc) : Prop :=
+    exists m, hs s (L_ow x) = [m] /\ mval m = 0%Z /\ mrel m = Some v.
+  Definition passed (s : st) (t y : nat) : Prop :=
+    kind s y = true \/ exists v, rel s y v /\ vle v (clk s t).
+  Definition lowp (s : st) (n : nat) : nat := match n with 0 => 0 | S x => stp s x end.
+  (* the value of next of x as the protocol leaves it *)
+  Definition nxt_ok (s : st) (x m : nat) : Prop :=
+    (stp s x = wm s -> m = 0) /\ (wm s < stp s x -> exists y, m = S y /\ stp s y = stp s x - 1).
+
+  Record Inv (s : st) : Prop := {
+    I_seen : forall t l, seen s t l <= length (hs s l);
+    I_wm : 1 <= wm s <= Nat.max 1 (length (hs s L_ZH));
+    I_stp : forall x, stp s x <= length (hs s L_ZH) /\ (pub s x -> x < nrec s);
+    I_inj : forall x y, pub s x -> stp s x = stp s y -> x = y;
+    I_all : forall k, 1 <= k <= length (hs s L_ZH) -> exists x, stp s x = k;
+    I_zh : forall j m, nth_error (hs s L_ZH) j = Some m ->
+           exists x, stp s x = length (hs s L_ZH) - j /\ mval m = pz (S x) /\ mrel m = Some (pubv s x);
+    I_mono : forall x y, pub s y -> stp s y <= stp s x -> vle (pubv s y) (pubv s x);
+    I_fresh : forall x, nrec s <= x ->
+              recs s x = ft0 /\ nods s x = ft0 /\ stp s x = 0 /\ hs s (L_nx x) = [] /\ hs s (L_ow x) = [] /\ freed s x = false;
+    I_reg : forall t x e, regx (pcT s t) = Some (x, e) ->
+            x < nrec s /\ stp s x = 0 /\ crt s x = t /\ kind s x = e /\ (if e then ownT s t <> 0 else ownT s t = 0);
+    I_pc : forall t, match pcT s t with
+                     | Idle => ownT s t = 0
+                     | RLd _ _ | RSt _ _ _ | RCas _ _ _ => True
+                     | UNxF n | UFr n _ => ownT s t <> 0 /\ n <> 0
+                     | _ => ownT s t <> 0 end;
+    I_rec : forall x, x < nrec s -> freed s x = false ->
+            fwho (recs s x) = crt s x /\ fwhen (recs s x) <= clk s (crt s x) (crt s x) /\
+            (pub s x -> fwhen (recs s x) <= pubv s x (crt s x)) /\
+            forall u, fR (recs s x) u = 0 \/
+                      (fR (recs s x) u <= clk s u u /\ (pcT s u = UNxF (S x) \/ exists m, pcT s u = UFr (S x) m));
+    I_nx : forall x j m, nth_error (hs s (L_nx x)) j = Some m ->
+           mwho m = crt s x /\ mwhen m <= clk s (crt s x) (crt s x) /\
+           (kind s x = true -> pub s x -> mwhen m <= pubv s x (crt s x));
+    I_nxv : forall x, pub s x -> wm s <= stp s x -> nxt_ok s x (nvl s (L_nx x));
+    I_ow : forall x, (hs s (L_ow x) = [] \/ exists v, rel s x v) /\
+           (forall v, rel s x v -> kind s x = false /\ pub s x /\
+                      forall j m, nth_error (hs s (L_nx x)) j = Some m -> mwhen m <= v (crt s x)) /\
+           (kind s x = false -> pub s x -> hs s (L_ow x) = [] -> exists t, ownT s t = S x);
+    I_own : forall t r, ownT s t = S r ->
+            kind s r = false /\ pub s r /\ freed s r = false /\ crt s r = t /\ hs s (L_ow r) = [] /\
+            vle (pubv s r) (clk s t) /\ wm s <= stp s r;
+    I_free : forall x, (pub s x -> stp s x < wm s -> freed s x = true) /\
+             (freed s x = true -> pub s x /\
+                (stp s x < wm s \/ exists t r n, ownT s t = S r /\ inrec (pcT s t) = Some n /\ lowp s n < stp s x < stp s r));
+    I_scan : forall t r n c b, ownT s t = S r -> inscan (pcT s t) = Some (n, c, b) ->
+             exists x, n = S x /\ pub s x /\ wm s <= stp s x < stp s r /\ freed s x = false /\
+                       (forall y, pub s y -> stp s x < stp s y < stp s r -> passed s t y) /\
+                       (b = true -> passed s t x) /\
+                       (exists y0, c = S y0 /\ stp s y0 = stp s r - 1);
+    I_recl : forall t r n, ownT s t = S r -> inrec (pcT s t) = Some n ->
+             (n = 0 \/ exists x, n = S x /\ pub s x /\ wm s <= stp s x < stp s r /\ freed s x = false) /\
+             (forall y, pub s y -> stp s y < stp s r -> freed s y = true \/ passed s t y) /\
+             (forall y, pub s y -> lowp s n < stp s y < stp s r -> freed s y = true) /\
+             (forall m, pcT s t = UFr n m -> nxt_ok s (pred n) m);
+    I_nod : forall x,
+            (fwhen (nods s x) = 0 \/ forall u r, ownT s u = S r -> stp s x < stp s r) /\
+            forall u, fR (nods s x) u = 0 \/
+                      (exists r, ownT s u = S r /\ stp s r < stp s x /\ fR (nods s x) u <= clk s u u) \/
+                      (exists y, kind s y = false /\ 0 < stp s y < stp s x /\ freed s y = false /\
+                                 ((exists t, ownT s t = S y /\ fR (nods s x) u <= clk s t u) \/
+                                  (exists v, rel s y v /\ fR (nods s x) u <= v u)));
+    I_cas : forall t x g e, pcT s t = RCas x g e -> nvl s (L_nx x) = g;
+    I_race : race s = false
+  }.
+
+  Lemma pub_init x : ~ pub init x.
+  Proof. unfold pub. cbn. lia. Qed.
+  Lemma Inv_init : Inv init.
+  Proof.
+    constructor; cbn; intros; auto; try lia; try discriminate.
+    - split; [lia|]. intros H. destruct (pub_init _ H).
+    - destruct (pub_init _ H).
+    - destruct j; discriminate.
+    - apply vle_refl.
+    - repeat split; reflexivity.
+    - destruct j; discriminate.
+    - split; [left; reflexivity|]. split.
+      + intros v (m & E & _). discriminate.
+      + intros _ H. destruct (pub_init _ H).
+    - split; [intros H; destruct (pub_init _ H)|discriminate].
+  Qed.
+
+  Ltac eqd a b := let E := fresh "E" in destruct (Nat.eqb_spec a b) as [E|E]; [first [subst a | subst b]|].
+
+  (* a step that changes only thread t's control state, clock, seen stamps (and the race flag) *)
+  Definition upd_t (s : st) (t : nat) (T : th) (c : vc) (sn : nat -> nat -> nat) (rc : bool) : st :=
+    St (fupd (ths s) t T) (fupd (clk s) t c) (hs s) sn (nrec s) (kind s) (recs s) (nods s) rc
+       (stp s) (crt s) (pubv s) (wm s) (freed s).
+
+  Lemma upd_t_inv s t T c sn :
+    Inv s -> vle (clk s t) c -> (forall t' l, sn t' l <= length (hs s l)) -> own T = ownT s t ->
+    let s' := upd_t s t T c sn false in
+    (forall x e, regx (pc T) = Some (x, e) -> regx (pcT s t) = Some (x, e)) ->
+    (match pc T with Idle => own T = 0 | RLd _ _ | RSt _ _ _ | RCas _ _ _ => True
+                   | UNxF n | UFr n _ => own T <> 0 /\ n <> 0 | _ => own T <> 0 end) ->
+    (forall x, (pcT s t = UNxF (S x) \/ exists m, pcT s t = UFr (S x) m) ->
+               (pc T = UNxF (S x) \/ exists m, pc T = UFr (S x) m)) ->
+    (forall n, inrec (pcT s t) = Some n -> exists n', inrec (pc T) = Some n' /\ lowp s n' <= lowp s n) ->
+    (forall r n c0 b, own T = S r -> inscan (pc T) = Some (n, c0, b) ->
+       exists x, n = S x /\ pub s x /\ wm s <= stp s x < stp s r /\ freed s x = false /\
+                 (forall y, pub s y -> stp s x < stp s y < stp s r -> passed s' t y) /\
+                 (b = true -> passed s' t x) /\ (exists y0, c0 = S y0 /\ stp s y0 = stp s r - 1)) ->
+    (forall r n, own T = S r -> inrec (pc T) = Some n ->
+       (n = 0 \/ exists x, n = S x /\ pub s x /\ wm s <= stp s x < stp s r /\ freed s x = false) /\
+       (forall y, pub s y -> stp s y < stp s r -> freed s y = true \/ passed s' t y) /\
+       (forall y, pub s y -> lowp s n < stp s y < stp s r -> freed s y = true) /\
+       (forall m, pc T = UFr n m -> nxt_ok s (pred n) m)) ->
+    (forall x g e, pc T = RCas x g e -> nvl s (L_nx x) = g) ->
+    Inv s'.
+  Proof.
+    intros I Hc Hsn Hown s' Hreg Hpc Hrp Hint Hscan Hrecl Hcas.
+    assert (CM : forall u, vle (clk s u) (clk s' u)).
+    { intros u. unfold s', upd_t. cbn. unfold fupd. eqd u t; [exact Hc|apply vle_refl]. }
+    assert (PM : forall u y, passed s u y -> passed s' u y).
+    { intros u y [H|(v & Hr & Hv)]; [left; exact H|right]. exists v. split; [exact Hr|]. eapply vle_trans; [exact Hv|apply CM]. }
+    assert (OW : forall u, ownT s' u = ownT s u).
+    { intros u. unfold s', upd_t, ownT. cbn. unfold fupd. eqd u t; [exact Hown|reflexivity]. }
+    assert (PC : forall u, u <> t -> pcT s' u = pcT s u).
+    { intros u Hu. unfold s', upd_t, pcT. cbn. rewrite fupd_ne by exact Hu. reflexivity. }
+    assert (PCt : pcT s' t = pc T) by (unfold s', upd_t, pcT; cbn; rewrite fupd_eq; reflexivity).
+    destruct I as [J1 J2 J3 J4 J5 J6 J7 J8 J9 J10 J11 J12 J13 J14 J15 J16 J17 J18 J19 J20 J21].
+    constructor; try assumption.
+    - intros u x e H. eqd u t.
+      + rewrite PCt in H. rewrite OW. apply J9. apply Hreg. exact H.
+      + rewrite PC in H by exact E. rewrite OW. apply J9. exact H.
+    - intros u. eqd u t; [rewrite PCt, OW, <- Hown; exact Hpc|rewrite PC, OW by exact E; apply J10].
+    - intros x Hx Hf. destruct (J11 x Hx Hf) as (A & B & C & D). split; [exact A|]. split; [|split; [exact C|]].
+      + eapply Nat.le_trans; [exact B|apply CM].
+      + intros u. destruct (D u) as [D1|[D1 D2]]; [left; exact D1|right]. split; [eapply Nat.le_trans; [exact D1|apply CM]|].
+        eqd u t; [rewrite PCt; apply Hrp; exact D2|rewrite PC by exact E; exact D2].
+    - intros x j m H. destruct (J12 x j m H) as (A & B & C). split; [exact A|]. split; [|exact C].
+      eapply Nat.le_trans; [exact B|apply CM].
+    - intros x. destruct (J14 x) as (A & B & C). split; [exact A|]. split; [exact B|].
+      intros H1 H2 H3. destruct (C H1 H2 H3) as [u Hu]. exists u. rewrite OW. exact Hu.
+    - intros u r H. rewrite OW in H. destruct (J15 u r H) as (A & B & C & D & E & F & G). repeat split; auto.
+      eapply vle_trans; [exact F|apply CM].
+    - intros x. destruct (J16 x) as [A B]. split; [exact A|]. intros H. destruct (B H) as [B1 B2]. split; [exact B1|].
+      destruct B2 as [B2|(u & r & n & U1 & U2 & U3)]; [left; exact B2|right].
+      eqd u t.
+      + destruct (Hint n U2) as (n' & N1 & N2). exists t, r, n'. rewrite OW, PCt. split; [exact U1|]. split; [exact N1|]. unfold lowp in *. cbn. lia.
+      + exists u, r, n. rewrite OW, PC by exact E. auto.
+    - intros u r n c0 b H1 H2. rewrite OW in H1. eqd u t.
+      + rewrite PCt in H2. apply (Hscan r n c0 b); [rewrite Hown; exact H1|exact H2].
+      + rewrite PC in H2 by exact E. destruct (J17 u r n c0 b H1 H2) as (x & A & B & C & D & F & G & K).
+        exists x. split; [exact A|]. split; [exact B|]. split; [exact C|]. split; [exact D|]. split; [|split; [|exact K]].
+        * intros y Hy1 Hy2. apply PM. apply F; auto.
+        * intros Hb. apply PM. apply G. exact Hb.
+    - intros u r n H1 H2. rewrite OW in H1. eqd u t.
+      + rewrite PCt in H2 |- *. apply (Hrecl r n); [rewrite Hown; exact H1|exact H2].
+      + rewrite PC in H2 |- * by exact E. destruct (J18 u r n H1 H2) as (A & B & C & D). split; [exact A|]. split; [|split; [exact C|exact D]].
+        intros y Hy1 Hy2. destruct (B y Hy1 Hy2); [left; auto|right; apply PM; auto].
+    - intros x. destruct (J19 x) as [A B]. split.
+      + destruct A as [A|A]; [left; exact A|right]. intros u r H. rewrite OW in H. eapply A; eauto.
+      + intros u. destruct (B u) as [B1|[(r & R1 & R2 & R3)|(y & Y1 & Y2 & Y3 & Y4)]]; [left; exact B1|right; left|right; right].
+        * exists r. rewrite OW. split; [exact R1|]. split; [exact R2|]. eapply Nat.le_trans; [exact R3|apply CM].
+        * exists y. split; [exact Y1|]. split; [exact Y2|]. split; [exact Y3|]. destruct Y4 as [(t' & T1 & T2)|Y4]; [left|right; exact Y4].
+          exists t'. rewrite OW. split; [exact T1|]. eapply Nat.le_trans; [exact T2|apply CM].
+    - intros u x g e H. eqd u t; [rewrite PCt in H; apply (Hcas x g e H)|rewrite PC in H by exact E; apply (J20 u x g e H)].
+    - reflexivity.
+  Qed.
+
+  Lemma lidx_bounds m ssc h c sn ch : sn <= length h ->
+    lidx m ssc h c sn ch <= length h /\ sn <= length h - lidx m ssc h c sn ch.
+  Proof.
+    intros H. unfold lidx. destruct (is_sc m && ssc); [lia|]. apply pick_bounds. exact H.
+  Qed.
+  Lemma lidx_known m ssc h c sn ch x : sn <= length h -> nth_error h 0 = Some x -> known c x = true ->
+    lidx m ssc h c sn ch = 0.
+  Proof.
+    intros H Hn Hk. unfold lidx. destruct (is_sc m && ssc); [reflexivity|].
+    pose proof (pick_known true h c sn ch 0 x H Hn Hk). lia.
+  Qed.
+  (* the seen table after a load of l by t that read index i *)
+  Lemma seen_load s t l i : Inv s -> i <= length (hs s l) ->
+    forall t' l', fupd (seen s) t (fupd (seen s t) l (read_stamp (hs s l) i)) t' l' <= length (hs s l').
+  Proof.
+    intros I Hi t' l'. unfold fupd, read_stamp. eqd t' t; [|apply (I_seen _ I)].
+    eqd l' l; [lia|apply (I_seen _ I)].
+  Qed.
+  Lemma set_upd s t T c sn : race s = false -> set s t T c (hs s) sn = upd_t s t T c sn false.
+  Proof. intros H. unfold set, upd_t. rewrite H. reflexivity. Qed.
+  Lemma setr_upd s t T c sn x : race s = false -> hbk s t x = true -> setr s t T c sn x = upd_t s t T c sn false.
+  Proof. intros H1 H2. unfold setr, upd_t. rewrite H1, H2. reflexivity. Qed.
+
+  (* what ok gives: the actor's control state *)
+  Lemma ok_tag s a : ok s a -> actor a < N /\ vpc_tag (pcT s (actor a)) = at_tag a.
+  Proof.
+    unfold ok, okb. intros H. apply andb_true_iff in H as [H _]. apply andb_true_iff in H as [H1 H2].
+    apply Nat.ltb_lt in H1. apply Nat.eqb_eq in H2. auto.
+  Qed.
+
+  Lemma step_ALd s t ch : Inv s -> ok s (ALd t ch) -> Inv (step s (ALd t ch)).
+  Proof.
+    intros I Hok. destruct (ok_tag _ _ Hok) as [Ht Htag]. cbn [actor at_tag] in *.
+    unfold step. unfold pcT in Htag. destruct (pc (ths s t)) eqn:Ep; try discriminate. clear Htag.
+    unfold load. set (h := hs s L_ZH). set (i := lidx _ _ h _ _ ch).
+    destruct (lidx_bounds (if e then o_e_ld o else o_r_ld o) (ssc_zh o) h (clk s t) (seen s t L_ZH) ch (I_seen _ I t L_ZH)) as [B1 B2].
+    fold i in B1, B2.
+    rewrite set_upd by apply (I_race _ I). apply upd_t_inv; cbn [pc own]; auto.
+    - apply read_clock_mono.
+    - apply seen_load; auto.
+    - unfold pcT. rewrite Ep. cbn. auto.
+    - unfold pcT. rewrite Ep. intros x0 [H|[m H]]; discriminate.
+    - unfold pcT. rewrite Ep. discriminate.
+    - discriminate.
+    - discriminate.
+    - intros xx gg ee HH; repeat match type of HH with context [if ?b then _ else _] => destruct b end; discriminate HH.
+  Qed.
+
+  (* a registered (not yet released) record is never passed, and never lies below a reclaimer's record *)
+  Lemma active_not_passed s t r u : Inv s -> ownT s t = S r -> passed s u r -> False.
+  Proof.
+    intros I H [P|(v & (m & E & _) & _)]; destruct (I_own _ I t r H) as (A & _ & _ & _ & B & _); congruence.
+  Qed.
+  Lemma active_not_below s t r t' r' n : Inv s -> ownT s t = S r -> ownT s t' = S r' ->
+    inrec (pcT s t') = Some n -> stp s r < stp s r' -> False.
+  Proof.
+    intros I H H' Hn Hlt. destruct (I_own _ I t r H) as (_ & P & F & _).
+    destruct (I_recl _ I t' r' n H' Hn) as (_ & A & _). destruct (A r P Hlt) as [A1|A1]; [congruence|].
+    exact (active_not_passed s t r t' I H A1).
+  Qed.
+  Lemma own_inj s t t' r : Inv s -> ownT s t = S r -> ownT s t' = S r -> t = t'.
+  Proof.
+    intros I H H'. destruct (I_own _ I t r H) as (_ & _ & _ & A & _). destruct (I_own _ I t' r H') as (_ & _ & _ & B & _). congruence.
+  Qed.
+  (* the record just below an active record that is not being reclaimed from is not freed *)
+  Lemma below_unfreed s t r y : Inv s -> ownT s t = S r -> inrec (pcT s t) = None ->
+    pub s y -> wm s <= stp s y -> stp s y = stp s r - 1 -> stp s y < stp s r -> freed s y = false.
+  Proof.
+    intros I H Hn Py Hw Hy Hlt. destruct (freed s y) eqn:F; [exfalso|reflexivity].
+    destruct (I_free _ I y) as [_ A]. destruct (A F) as [_ [A1|(t' & r' & n & U1 & U2 & U3)]]; [lia|].
+    destruct (I_own _ I t r H) as (_ & P & _).
+    destruct (Nat.eq_dec (stp s r) (stp s r')) as [E|E].
+    - apply (I_inj _ I r r' P) in E. subst r'. assert (t = t') by (eapply own_inj; eauto). subst t'. congruence.
+    - eapply (active_not_below s t r t' r'); eauto. lia.
+  Qed.
+
+  (* a load of next of x by a thread that is entitled to it reads the newest message *)
+  Lemma nx_newest s t x m ch : Inv s ->
+    crt s x = t \/ (pub s x /\ vle (pubv s x) (clk s t) /\ passed s t x) ->
+    lidx m (ssc_nx o) (hs s (L_nx x)) (clk s t) (seen s t (L_nx x)) ch = 0.
+  Proof.
+    intros I H. pose proof (I_seen _ I t (L_nx x)) as Hs.
+    destruct (hs s (L_nx x)) as [|m0 h'] eqn:Eh.
+    - destruct (lidx_bounds m (ssc_nx o) [] (clk s t) (seen s t (L_nx x)) ch Hs) as [A _]. cbn in A. lia.
+    - eapply lidx_known; [exact Hs|reflexivity|]. unfold known. apply Nat.leb_le.
+      assert (Hn : nth_error (hs s (L_nx x)) 0 = Some m0) by (rewrite Eh; reflexivity).
+      destruct (I_nx _ I x 0 m0 Hn) as (A & B & C). rewrite A.
+      destruct H as [<-|(P & K & [Hk|(v & Hr & Hv)])]; [exact B| |].
+      + specialize (C Hk P). specialize (K (crt s x)). lia.
+      + destruct (I_ow _ I x) as (_ & D & _). destruct (D v Hr) as (_ & _ & D3). specialize (D3 0 m0 Hn). specialize (Hv (crt s x)). lia.
+  Qed.
+
+  Lemma read_val_0 iv h : zp (read_val iv h 0) = zp (match nth_error h 0 with Some m => mval m | None => iv end).
+  Proof. reflexivity. Qed.
+
+  Lemma step_AULd s t ch : Inv s -> ok s (AULd t ch) -> Inv (step s (AULd t ch)).
+  Proof.
+    intros I Hok. destruct (ok_tag _ _ Hok) as [Ht Htag]. cbn [actor at_tag] in *.
+    unfold pcT in Htag. destruct (pc (ths s t)) eqn:Ep; try discriminate. clear Htag.
+    pose proof (I_pc _ I t) as Hp. unfold pcT in Hp. rewrite Ep in Hp.
+    destruct (ownT s t) as [|r] eqn:Eo; [congruence|]. clear Hp.
+    destruct (I_own _ I t r Eo) as (O1 & O2 & O3 & O4 & O5 & O6 & O7).
+    unfold step, load. unfold ownT in Eo. rewrite Eo. cbn [pred].
+    rewrite (nx_newest s t r (o_u_ld o) ch I (or_introl O4)).
+    fold (nvl s (L_nx r)). set (c0 := nvl s (L_nx r)).
+    destruct (I_nxv _ I r O2 O7) as [N1 N2]. fold c0 in N1, N2.
+    rewrite set_upd by apply (I_race _ I). apply upd_t_inv; cbn [pc own]; auto.
+    - apply read_clock_mono.
+    - apply seen_load; auto. lia.
+    - unfold pcT. rewrite Ep. destruct (Nat.eqb c0 0); discriminate.
+    - destruct (Nat.eqb c0 0); congruence.
+    - unfold pcT. rewrite Ep. intros x0 [H|[m H]]; discriminate.
+    - unfold pcT. rewrite Ep. discriminate.
+    - intros r' n c1 b Hr Hs. inversion Hr; subst r'.
+      destruct (Nat.eqb_spec c0 0) as [E0|E0]; [discriminate|]. cbn in Hs. inversion Hs; subst n c1 b.
+      assert (wm s < stp s r) as Hw by (destruct (Nat.eq_dec (stp s r) (wm s)) as [E|E]; [specialize (N1 E); congruence|lia]).
+      destruct (N2 Hw) as (y & Ey & Sy). exists y. split; [exact Ey|].
+      assert (pub s y) as Py by (unfold pub; pose proof (I_wm _ I); lia).
+      split; [exact Py|]. split; [lia|]. split; [|split; [|split]].
+      + eapply below_unfreed; eauto; [unfold pcT; rewrite Ep; reflexivity|lia|lia].
+      + intros y' _ Hy'. lia.
+      + discriminate.
+      + exists y. auto.
+    - intros r' n Hr Hs. inversion Hr; subst r'.
+      destruct (Nat.eqb_spec c0 0) as [E0|E0]; [|discriminate]. cbn in Hs. inversion Hs; subst n.
+      assert (stp s r = wm s) as Hw.
+      { destruct (Nat.eq_dec (stp s r) (wm s)) as [E|E]; [exact E|]. destruct N2 as (y & Ey & _); [lia|congruence]. }
+      split; [left; reflexivity|]. split; [|split].
+      + intros y Py Hy. left. apply (I_free _ I y); [exact Py|lia].
+      + intros y Py Hy. apply (I_free _ I y); [exact Py|lia].
+      + discriminate.
+    - intros xx gg ee HH; repeat match type of HH with context [if ?b then _ else _] => destruct b end; discriminate HH.
+  Qed.
+
+  Lemma knows_older s t r x : Inv s -> ownT s t = S r -> pub s x -> stp s x <= stp s r -> vle (pubv s x) (clk s t).
+  Proof.
+    intros I H P L. destruct (I_own _ I t r H) as (_ & _ & _ & _ & _ & K & _).
+    eapply vle_trans; [apply (I_mono _ I r x P L)|exact K].
+  Qed.
+  Lemma hbk_ok s t r x : Inv s -> ownT s t = S r -> pub s x -> stp s x <= stp s r -> freed s x = false -> hbk s t x = true.
+  Proof.
+    intros I H P L F. unfold hbk. apply Nat.leb_le.
+    destruct (I_rec _ I x (proj2 (I_stp _ I x) P) F) as (A & _ & C & _). rewrite A.
+    specialize (C P). pose proof (knows_older s t r x I H P L (crt s x)). lia.
+  Qed.
+  Lemma passed_upd s t T c sn rc u y : vle (clk s t) c -> passed s u y -> passed (upd_t s t T c sn rc) u y.
+  Proof.
+    intros Hc [H|(v & Hr & Hv)]; [left; exact H|right]. exists v. split; [exact Hr|].
+    unfold upd_t. cbn. unfold fupd. eqd u t; [eapply vle_trans; eauto|exact Hv].
+  Qed.
+
+  Lemma step_AOwn s t ch : Inv s -> ok s (AOwn t ch) -> Inv (step s (AOwn t ch)).
+  Proof.
+    intros I Hok. destruct (ok_tag _ _ Hok) as [Ht Htag]. cbn [actor at_tag] in *.
+    unfold pcT in Htag. destruct (pc (ths s t)) eqn:Ep; try discriminate. clear Htag.
+    pose proof (I_pc _ I t) as Hp. unfold pcT in Hp. rewrite Ep in Hp.
+    destruct (ownT s t) as [|r] eqn:Eo; [congruence|]. clear Hp.
+    destruct (I_scan _ I t r n c false Eo) as (x & En & Px & Sx & Fx & Pa & _ & Cc); [unfold pcT; rewrite Ep; reflexivity|].
+    subst n. unfold step. rewrite Ep. unfold load. cbn [pred]. unfold ownT in Eo. rewrite Eo.
+    set (h := hs s (L_ow x)). set (i := lidx _ _ h _ _ ch).
+    destruct (lidx_bounds (o_s_own o) (ssc_ow o) h (clk s t) (seen s t (L_ow x)) ch (I_seen _ I t (L_ow x))) as [B1 B2].
+    fold i in B1, B2. set (v := zp (read_val (oinit s x) h i)).
+    assert (Hc : vle (clk s t) (read_clock (o_s_own o) h i (clk s t))) by apply read_clock_mono.
+    rewrite setr_upd; [|apply (I_race _ I)|eapply hbk_ok; eauto; lia].
+    apply upd_t_inv; cbn [pc own]; auto.
+    - apply seen_load; auto.
+    - unfold pcT. rewrite Ep. destruct (Nat.eqb v 0); discriminate.
+    - destruct (Nat.eqb v 0); congruence.
+    - unfold pcT. rewrite Ep. intros x0 [H|[m H]]; discriminate.
+    - unfold pcT. rewrite Ep. discriminate.
+    - intros r' n c1 b Hr Hs. inversion Hr; subst r'.
+      destruct (Nat.eqb_spec v 0) as [E0|E0]; [|discriminate]. cbn in Hs. inversion Hs; subst n c1 b.
+      exists x. split; [reflexivity|]. split; [exact Px|]. split; [exact Sx|]. split; [exact Fx|]. split; [|split; [|exact Cc]].
+      + intros y Py Hy. apply passed_upd; [exact Hc|]. apply Pa; auto.
+      + intros _. destruct (I_ow _ I x) as (A & B & _). fold h in A.
+        destruct A as [A|(w & m & A1 & A2 & A3)].
+        * left. change (kind s x = true). unfold v, read_val, oinit in E0. rewrite A in E0. destruct (kind s x); [reflexivity|exfalso]. destruct i; vm_compute in E0; discriminate.
+        * fold h in A1. destruct i as [|i].
+          -- right. exists w. split; [exists m; auto|]. unfold upd_t. cbn. rewrite fupd_eq.
+             eapply read_clock_acq; [exact H_own_acq|rewrite A1; reflexivity|exact A3].
+          -- exfalso. destruct (B w) as (K1 & _); [exists m; auto|].
+             unfold v, read_val in E0. rewrite A1 in E0. rewrite A1 in B1. cbn in B1. assert (i = 0) by lia. subst i. cbn in E0.
+             unfold oinit in E0. rewrite K1 in E0. vm_compute in E0. discriminate.
+    - intros r' n Hr Hs. destruct (Nat.eqb v 0); discriminate.
+    - intros xx gg ee HH; repeat match type of HH with context [if ?b then _ else _] => destruct b end; discriminate HH.
+  Qed.
+
+  (* below an active, non-reclaiming record r: a record y is not freed if every record from just above y
+     up to r has been passed by r's owner *)
+  Lemma scan_unfreed s t r lo y : Inv s -> ownT s t = S r -> inrec (pcT s t) = None ->
+    (forall y', pub s y' -> lo <= stp s y' < stp s r -> passed s t y') ->
+    pub s y -> wm s <= stp s y -> lo <= S (stp s y) -> stp s y < stp s r -> freed s y = false.
+  Proof.
+    intros I H Hn Pa Py Hw Hlo Hlt. destruct (freed s y) eqn:F; [exfalso|reflexivity].
+    destruct (I_free _ I y) as [_ A]. destruct (A F) as [_ [A1|(t' & r' & n & U1 & U2 & U3)]]; [lia|].
+    destruct (I_own _ I t r H) as (_ & P & _). destruct (I_own _ I t' r' U1) as (_ & P' & _).
+    destruct (lt_eq_lt_dec (stp s r) (stp s r')) as [[L|E]|L].
+    - eapply (active_not_below s t r t' r'); eauto.
+    - apply (I_inj _ I r r' P) in E. subst r'. assert (t = t') by (eapply own_inj; eauto). subst t'. congruence.
+    - apply (active_not_passed s t' r' t I U1). apply Pa; [exact P'|lia].
+  Qed.
+
+  Lemma step_ANx s t ch : Inv s -> ok s (ANx t ch) -> Inv (step s (ANx t ch)).
+  Proof.
+    intros I Hok. destruct (ok_tag _ _ Hok) as [Ht Htag]. cbn [actor at_tag] in *.
+    unfold pcT in Htag. destruct (pc (ths s t)) eqn:Ep; try discriminate. clear Htag.
+    pose proof (I_pc _ I t) as Hp. unfold pcT in Hp. rewrite Ep in Hp.
+    destruct (ownT s t) as [|r] eqn:Eo; [congruence|]. clear Hp.
+    destruct (I_scan _ I t r n c true Eo) as (x & En & Px & Sx & Fx & Pa & Pb & (y0 & Ec & Sy0)); [unfold pcT; rewrite Ep; reflexivity|].
+    specialize (Pb eq_refl). subst n c.
+    assert (Kx : vle (pubv s x) (clk s t)) by (eapply knows_older; eauto; lia).
+    unfold step. rewrite Ep. unfold load. cbn [pred].
+    rewrite (nx_newest s t x (o_s_nx o) ch I (or_intror (conj Px (conj Kx Pb)))).
+    fold (nvl s (L_nx x)). set (m := nvl s (L_nx x)).
+    destruct (I_nxv _ I x Px (proj1 Sx)) as [N1 N2]. fold m in N1, N2.
+    assert (Hc : vle (clk s t) (read_clock (o_s_nx o) (hs s (L_nx x)) 0 (clk s t))) by apply read_clock_mono.
+    assert (Hin : inrec (pcT s t) = None) by (unfold pcT; rewrite Ep; reflexivity).
+    unfold ownT in Eo. rewrite Eo.
+    rewrite setr_upd; [|apply (I_race _ I)|eapply hbk_ok; eauto; lia].
+    apply upd_t_inv; cbn [pc own]; auto.
+    - apply seen_load; auto. lia.
+    - unfold pcT. rewrite Ep. destruct (Nat.eqb m 0); discriminate.
+    - destruct (Nat.eqb m 0); congruence.
+    - unfold pcT. rewrite Ep. intros x0 [H|[m0 H]]; discriminate.
+    - unfold pcT. rewrite Ep. discriminate.
+    - intros r' n c1 b Hr Hs. inversion Hr; subst r'.
+      destruct (Nat.eqb_spec m 0) as [E0|E0]; [discriminate|]. cbn in Hs. inversion Hs; subst n c1 b.
+      assert (wm s < stp s x) as Hw by (destruct (Nat.eq_dec (stp s x) (wm s)) as [E|E]; [specialize (N1 E); congruence|lia]).
+      destruct (N2 Hw) as (y & Ey & Sy). exists y. split; [exact Ey|].
+      assert (pub s y) as Py by (unfold pub; pose proof (I_wm _ I); lia).
+      assert (Pa' : forall y', pub s y' -> stp s x <= stp s y' < stp s r -> passed s t y').
+      { intros y' Py' Hy'. destruct (Nat.eq_dec (stp s y') (stp s x)) as [E|E]; [|apply Pa; [exact Py'|lia]].
+        apply (I_inj _ I y' x Py') in E. subst y'. exact Pb. }
+      split; [exact Py|]. split; [lia|]. split; [|split; [|split]].
+      + eapply (scan_unfreed s t r (stp s x) y); eauto; lia.
+      + intros y' Py' Hy'. apply passed_upd; [exact Hc|]. apply Pa'; [exact Py'|lia].
+      + discriminate.
+      + exists y0. auto.
+    - intros r' n Hr Hs. inversion Hr; subst r'.
+      destruct (Nat.eqb_spec m 0) as [E0|E0]; [|discriminate]. cbn in Hs. inversion Hs; subst n.
+      assert (stp s x = wm s) as Hw.
+      { destruct (Nat.eq_dec (stp s x) (wm s)) as [E|E]; [exact E|]. destruct N2 as (y & Ey & _); [lia|congruence]. }
+      assert (pub s y0) as Py0 by (unfold pub; pose proof (I_wm _ I); lia).
+      split; [right; exists y0; split; [reflexivity|split; [exact Py0|split; [lia|]]]|split; [|split]].
+      + eapply (scan_unfreed s t r (stp s r) y0); eauto; try lia; try (intros y' _ Hy'; lia).
+      + intros y Py Hy. destruct (lt_eq_lt_dec (stp s y) (stp s x)) as [[L|E]|L].
+        * left. apply (I_free _ I y); [exact Py|lia].
+        * right. apply (I_inj _ I y x Py) in E. subst y. apply passed_upd; auto.
+        * right. apply passed_upd; [exact Hc|]. apply Pa; [exact Py|lia].
+      + intros y Py Hy. cbn [lowp] in Hy. lia.
+      + discriminate.
+    - intros xx gg ee HH; repeat match type of HH with context [if ?b then _ else _] => destruct b end; discriminate HH.
+  Qed.
+
+  Lemma step_ANxF s t ch : Inv s -> ok s (ANxF t ch) -> Inv (step s (ANxF t ch)).
+  Proof.
+    intros I Hok. destruct (ok_tag _ _ Hok) as [Ht Htag]. cbn [actor at_tag] in *.
+    unfold pcT in Htag. destruct (pc (ths s t)) eqn:Ep; try discriminate. clear Htag.
+    pose proof (I_pc _ I t) as Hp. unfold pcT in Hp. rewrite Ep in Hp. destruct Hp as [Hp Hn0].
+    destruct (ownT s t) as [|r] eqn:Eo; [congruence|]. clear Hp.
+    assert (Hin : inrec (pcT s t) = Some n) by (unfold pcT; rewrite Ep; reflexivity).
+    destruct (I_recl _ I t r n Eo Hin) as (R1 & R2 & R3 & R4).
+    destruct R1 as [R1|(x & En & Px & Sx & Fx)]; [congruence|]. subst n.
+    assert (Pb : passed s t x) by (destruct (R2 x Px (proj2 Sx)) as [A|A]; [congruence|exact A]).
+    assert (Kx : vle (pubv s x) (clk s t)) by (eapply knows_older; eauto; lia).
+    unfold step. rewrite Ep. unfold load. cbn [pred].
+    rewrite (nx_newest s t x (o_f_nx o) ch I (or_intror (conj Px (conj Kx Pb)))).
+    fold (nvl s (L_nx x)). set (m := nvl s (L_nx x)).
+    pose proof (I_nxv _ I x Px (proj1 Sx)) as Nx. fold m in Nx.
+    assert (Hc : vle (clk s t) (read_clock (o_f_nx o) (hs s (L_nx x)) 0 (clk s t))) by apply read_clock_mono.
+    unfold ownT in Eo. rewrite Eo.
+    rewrite setr_upd; [|apply (I_race _ I)|eapply hbk_ok; eauto; lia].
+    apply upd_t_inv; cbn [pc own]; auto.
+    - apply seen_load; auto. lia.
+    - unfold pcT. rewrite Ep. discriminate.
+    - unfold pcT. rewrite Ep. intros x0 [H|[m0 H]]; [inversion H; subst x0; right; exists m; reflexivity|discriminate].
+    - unfold pcT. rewrite Ep. intros n0 H. inversion H; subst n0. exists (S x). split; [reflexivity|lia].
+    - discriminate.
+    - intros r' n Hr Hs. inversion Hr; subst r'. cbn in Hs. inversion Hs; subst n.
+      split; [right; exists x; auto|]. split; [|split; [exact R3|]].
+      + intros y Py Hy. destruct (R2 y Py Hy) as [A|A]; [left; exact A|right; apply passed_upd; auto].
+      + intros m0 H. inversion H; subst m0. exact Nx.
+    - intros xx gg ee HH; repeat match type of HH with context [if ?b then _ else _] => destruct b end; discriminate HH.
+  Qed.
+
+  Lemma rmw_clock_mono m prev c : vle c (rmw_clock m prev c).
+  Proof.
+    unfold rmw_clock. destruct prev as [p|]; [|apply vle_refl]. destruct (mrel p); [|apply vle_refl].
+    destruct (is_acq m); [apply vle_join_l|apply vle_refl].
+  Qed.
+
+  Lemma cas_fail_inv s t x g e cur c' : Inv s -> pc (ths s t) = RCas x g e -> vle (clk s t) c' ->
+    Inv (set s t (Th (RSt x cur e) (own (ths s t))) c' (hs s)
+             (fupd (seen s) t (fupd (seen s t) L_ZH (length (hs s L_ZH))))).
+  Proof.
+    intros I Ep Hc. rewrite set_upd by apply (I_race _ I). apply upd_t_inv; cbn [pc own]; auto.
+    - intros t' l'. unfold fupd. eqd t' t; [|apply (I_seen _ I)]. eqd l' L_ZH; [lia|apply (I_seen _ I)].
+    - unfold pcT. rewrite Ep. cbn. auto.
+    - unfold pcT. rewrite Ep. intros x0 [H|[m H]]; discriminate.
+    - unfold pcT. rewrite Ep. discriminate.
+    - discriminate.
+    - discriminate.
+    - discriminate.
+  Qed.
+
+  (* the message of a successful CAS releases a clock that dominates the pusher's clock and the clock
+     released for every record already in the log; the pusher acquires it *)
+  Lemma cas_msg s t m v : Inv s -> is_rel m = true -> is_acq m = true ->
+    let h := hs s L_ZH in let c := clk s t in let prev := nth_error h 0 in
+    exists pv, mrel (rmw_msg m t c prev v) = Some pv /\ vle c pv /\ vle pv (rmw_clock m prev c) /\
+               (forall y, pub s y -> vle (pubv s y) pv) /\
+               (zp (read_val 0%Z h 0) = 0 -> length h = 0) /\
+               (forall y, zp (read_val 0%Z h 0) = S y -> stp s y = length h).
+  Proof.
+    intros I Hr Ha h c prev. unfold rmw_msg, rmw_clock. cbn [mrel]. rewrite Hr, Ha. subst prev.
+    destruct h as [|p h'] eqn:Eh.
+    - cbn. exists c. split; [reflexivity|]. split; [apply vle_refl|]. split; [apply vle_refl|]. split; [|split; [reflexivity|]].
+      + intros y Py. exfalso. destruct (I_stp _ I y) as [A _]. fold L_ZH in A. unfold pub in Py.
+        change (hs s L_ZH) with h in A. rewrite Eh in A. cbn in A. lia.
+      + intros y Hy. vm_compute in Hy. discriminate.
+    - cbn [nth_error]. assert (Hn : nth_error (hs s L_ZH) 0 = Some p) by (change (hs s L_ZH) with h; rewrite Eh; reflexivity).
+      destruct (I_zh _ I 0 p Hn) as (x0 & S0 & V0 & R0). rewrite R0.
+      change (hs s L_ZH) with h in S0. rewrite Eh in S0. rewrite Nat.sub_0_r in S0.
+      exists (vjoin c (pubv s x0)). split; [reflexivity|]. split; [apply vle_join_l|]. split; [apply vle_refl|]. split; [|split].
+      + intros y Py. eapply vle_trans; [|apply vle_join_r]. apply (I_mono _ I x0 y Py).
+        destruct (I_stp _ I y) as [A _]. change (hs s L_ZH) with h in A. rewrite Eh in A. lia.
+      + unfold read_val. cbn [nth_error]. rewrite V0, zp_pz. discriminate.
+      + intros y Hy. unfold read_val in Hy. cbn [nth_error] in Hy. rewrite V0, zp_pz in Hy. inversion Hy; subst y. exact S0.
+  Qed.
